@@ -25,6 +25,34 @@ def iter_source(p):
     return None
 
 
+SLICE_ITER = re.compile(r"^core::slice::<impl \[.*\]>::iter$|IntoIterator>::into_iter$|^std::collections::HashMap::<.*>::iter$|^core::array::<impl \[.*\]>::iter$")
+
+
+def plain_source(cfg, src):
+    """The collection a loop runs over, seen through order- and element-preserving wrappers:
+    X.iter() / (&X).into_iter(), and .map(|(a, b)| (a, b)) (re-borrowing a pair as a pair of references)."""
+    import pipes
+    for _ in range(6):
+        if isinstance(src, tuple) and src[0] == "cast" and src[1] == "PointerCoercion" and len(src) > 4 and \
+                re.match(r"^&\[(.*); [^;]+\]$", src[3]) and src[4] == "&[" + re.match(r"^&\[(.*); [^;]+\]$", src[3]).group(1) + "]":
+            src = src[2]      # &[T; N] -> &[T]
+            continue
+        if src is None or not (isinstance(src, tuple) and src[0] == "call"):
+            return src
+        if pipes.MAP.search(src[1]) and len(src[2]) == 2:
+            fp = pipes.fn_paths(cfg, src[2][1])
+            arg = ("ARG",)
+            if fp is not None and len(fp) == 1 and not fp[0][0] and fp[0][1] in (("tuple", (F(arg, "0"), F(arg, "1"))), ("tuple", (F(arg, 0), F(arg, 1)))):
+                src = src[2][0]
+                continue
+            return src
+        if SLICE_ITER.search(src[1]) and len(src[2]) == 1:
+            src = src[2][0]
+            continue
+        return src
+    return src
+
+
 def inverse_shape(chk, cfg, b, rule, what, want_source):
     """Per-key state machine  absent -> Some(codon.clone()),  present -> None  over a loop
     on the forward table; returns True if established.  Accepted idiom: contains_key / insert
@@ -37,7 +65,7 @@ def inverse_shape(chk, cfg, b, rule, what, want_source):
         chk.cannot(rule, what, "expected a single loop with two iteration paths (absent/present) and one exit; found %d iteration paths, %d exits%s" % (
             len(conts), len(rets), "; " + bad[0].describe()[:160] if bad else ""), b["span"])
         return None
-    src = iter_source(rets[0])
+    src = plain_source(cfg, iter_source(rets[0]))
     chk.ob(rule + "/source", what, src is not None and want_source(src), "the inverse is built from %s, expected the forward table" % (show(src) if src else "?"), b["span"])
     ok = True
     seen = {}
@@ -81,7 +109,7 @@ def inverse_shape(chk, cfg, b, rule, what, want_source):
 
 def variant_flow(chk, cfg, b, rule, what, getter_ok, rows):
     """try_to_codon-like lookup: paths keyed by discr(get(..)) and discr(inner)."""
-    paths, _ = an.analyse(cfg, b)
+    paths, _ = an.analyse(cfg, b, policy=an.ForkPolicy())
     rets = [p for p in paths if p.end == "return"]
     out = {}
     for p in rets:
